@@ -142,9 +142,9 @@ def geometry_check(chk, mod):
            if ok else f"packer block {P} x mpi_size != unpacker transfer {Uu}", file=rel,
            func="LayoutHandler._rearrange_from_buffer", facts={"packer": str(P), "unpacker": str(Uu)})
     # the packer advances by exactly one block per destination rank
-    adv = [n for n in ast.walk(pack) if isinstance(n, ast.AugAssign) and isinstance(n.target, ast.Name)
-           and n.target.id == "start"]
-    okadv = len(adv) == 1 and isinstance(adv[0].op, ast.Add) and src(adv[0].value) == "size"
+    from ..core import increment_of
+    adv = [increment_of(n) for n in ast.walk(pack) if isinstance(n, (ast.Assign, ast.AugAssign)) and increment_of(n) and increment_of(n)[0] == "start"]
+    okadv = len(adv) == 1 and src(adv[0][1]) == "size"
     chk.ob("G1-packer-advance", pack, "start += size", okadv,
            "packer advances by one block per destination rank" if okadv else "packer does not advance by `size`",
            file=rel, func="LayoutHandler._extract_from_source")
